@@ -215,6 +215,9 @@ def part_lines(ctx) -> None:
         check_line(ctx, dtm, line, msg)
         if len(ctx.samples) < 4 and i % 97 == 0:
             ctx.sample({"line": line, "payload": msg.payload})
+        # the payload now belongs to its holder (an application): whatever it does with it must not show up
+        # in a later decode - anything a parser kept a reference to is poisoned here, and orders B / C tell
+        poison(msg.payload)
     # orders B (shuffled) and C (reversed): fresh objects, warm caches, other neighbours
     order_b = list(first)
     rng.shuffle(order_b)
@@ -230,6 +233,23 @@ def part_lines(ctx) -> None:
                     "the same packet decoded to a different payload when decoded in another order",
                     {"line": line, "first": first[i][:300], "later": got[:300], "order": name},
                 )
+
+
+def poison(obj: Any, depth: int = 0) -> None:
+    """Modify a decoded payload in place, as a careless holder might."""
+    if depth > 6:
+        return
+    if isinstance(obj, dict):
+        for k in list(obj):
+            if isinstance(obj[k], (dict, list)):
+                poison(obj[k], depth + 1)
+            else:
+                obj[k] = "<<poisoned>>"
+        obj["<<poisoned>>"] = True
+    elif isinstance(obj, list):
+        for x in obj:
+            poison(x, depth + 1)
+        obj.append("<<poisoned>>")
 
 
 def part_siblings(ctx) -> None:
